@@ -414,15 +414,17 @@ fn one_case(w: &mut impl Write, id: &str, src: &str, cfgs: &[&str]) {
     dump_diags(w, "resolve", &resolver.errors);
     let accepted = !resolver.errors.has_errors();
     writeln!(w, "accepted {}", u8::from(accepted)).unwrap();
+    {
+        // the AST is dumped for every program that parses (bindings are partial when the
+        // checker rejected it); `plan` and the runs follow only for accepted programs
+        let mut d = Dump { facts: &resolver.facts, out: String::new() };
+        d.block(root);
+        writeln!(w, "ast{}", d.out).unwrap();
+    }
     if !accepted {
         writeln!(w, "end {id}").unwrap();
         w.flush().unwrap();
         return;
-    }
-    {
-        let mut d = Dump { facts: &resolver.facts, out: String::new() };
-        d.block(root);
-        writeln!(w, "ast{}", d.out).unwrap();
     }
     match resolver.optimization_plan.as_ref() {
         None => writeln!(w, "plan none").unwrap(),
